@@ -87,11 +87,12 @@ def impl_op_view(op):
         except Exception:  # noqa: BLE001
             req = False
         body.append({"media": getattr(p, "media_type", None), **sch, "required": req})
-    return {"path": op.path, "method": op.method, "raw": op.definition.raw, "locs": locs, "body": body}
+    return {"path": op.path, "method": op.method, "scope": op.definition.scope, "raw": op.definition.raw, "locs": locs, "body": body}
 
 
-def impl_access(schema, a):
-    """One access on a real schema object -> canonical result."""
+def impl_access(schema, a, seen=None):
+    """One access on a real schema object -> canonical result.  `inst` is the position of the returned OBJECT among the
+    distinct operation objects returned so far in the sequence (same object / another object)."""
     from schemathesis.core.result import Ok
 
     kind = a[0]
@@ -117,20 +118,29 @@ def impl_access(schema, a):
             op = schema.get_operation_by_reference(a[1])
     except Exception as e:  # noqa: BLE001
         return {"raises": exc_class(e)}
-    return {"op": impl_op_view(op)}
+    res = {"op": impl_op_view(op)}
+    if seen is not None:
+        idx = next((i for i, o in enumerate(seen) if o is op), None)
+        if idx is None:
+            seen.append(op)
+            idx = len(seen) - 1
+        res["inst"] = idx
+    return res
 
 
-def impl_run(doc, accs, fresh_each=False):
+def impl_run(doc, accs, fresh_each=False, loader=None):
     import schemathesis
 
     with warnings.catch_warnings():
         warnings.simplefilter("ignore")
         out = []
         schema = None
+        seen = []  # operation objects returned by the lookups of this sequence, for the identity pattern
         for a in accs:
             if schema is None or fresh_each:
-                schema = schemathesis.openapi.from_dict(copy.deepcopy(doc))
-            out.append(impl_access(schema, a))
+                schema = loader(doc) if loader else schemathesis.openapi.from_dict(copy.deepcopy(doc))
+            r = impl_access(schema, a, seen=None if fresh_each else seen)
+            out.append(r)
         return out
 
 
@@ -195,7 +205,7 @@ def p_op_view(v):
     body = []
     for media, sch, req in v["v_body"]:
         body.append({"media": pjson(media), **p_res(sch, lambda s: {"schema": pjson(s)}), "required": req})
-    return {"path": pstr(v["v_path"]), "method": pstr(v["v_method"]), "raw": pjson(v["v_raw"]), "locs": locs, "body": body}
+    return {"path": pstr(v["v_path"]), "method": pstr(v["v_method"]), "scope": pstr(v["v_scope"]), "raw": pjson(v["v_raw"]), "locs": locs, "body": body}
 
 
 def p_result(v):
@@ -221,9 +231,19 @@ def model_run(cases):
     out = []
     for v in vals:
         try:
-            out.append([p_result(x) for x in v])
+            rs = [p_result(x) for x in v]
         except OutsideModel:
             out.append(None)
+            continue
+        # identity pattern of the model: operations stored in the cache are pairwise different as values
+        # (traversal key = scope, path, method), so "same instance" is "equal view, scope included"
+        seen = []
+        for r in rs:
+            if "op" in r:
+                if r["op"] not in seen:
+                    seen.append(r["op"])
+                r["inst"] = seen.index(r["op"])
+        out.append(rs)
     return out
 
 
@@ -374,10 +394,11 @@ def gen_doc(rng, malform=None):
 
     paths = {}
     shared_items = {}
-    for p in rng.sample(PATHS, rng.choice([1, 2, 2, 3, 4])):
+    ref_first = rng.random() < 0.25
+    for n_path, p in enumerate(rng.sample(PATHS, rng.choice([1, 2, 2, 3, 4]))):
         item = gen_path_item()
         r = rng.random()
-        if r < 0.15:
+        if r < 0.15 or (ref_first and n_path == 0):
             key = f"I{len(shared_items)}"
             shared_items[key] = item
             paths[p] = {"$ref": ("#/x-items/" if v20 else "#/components/pathItems/") + key}
@@ -510,11 +531,38 @@ def doc_keys(doc):
     return paths, ops, ids
 
 
+def id_owner(doc, oid):
+    """(path, method) of the last operation with this operationId."""
+    found = None
+    ps = doc.get("paths")
+    if isinstance(ps, dict):
+        for p, item in ps.items():
+            if isinstance(item, dict) and isinstance(item.get("$ref"), str):
+                tgt = doc
+                try:
+                    for part in item["$ref"][2:].split("/"):
+                        tgt = tgt[part]
+                    item = tgt
+                except Exception:  # noqa: BLE001
+                    item = None
+            if isinstance(item, dict):
+                for m, op in item.items():
+                    if m in HTTP_METHODS and isinstance(op, dict) and op.get("operationId") == oid:
+                        found = (p, m)
+    return found
+
+
 def gen_accesses(rng, doc, n=None):
     paths, ops, ids = doc_keys(doc)
     n = n or rng.choice([2, 3, 4, 5, 6, 8])
     out = []
+    if ids and rng.random() < 0.35:
+        # start by operationId, before anything was reached by path (the id scan decides scope and traversal key)
+        out.append(["id", rng.choice(ids)])
+        n -= 1
     focus = rng.sample(ops, min(len(ops), rng.choice([1, 2]))) if ops else []
+    if out and id_owner(doc, out[0][1]):
+        focus = [id_owner(doc, out[0][1])] + focus[:1]
     for _ in range(n):
         r = rng.random()
         if r < 0.12:
@@ -551,6 +599,18 @@ def norm(x):
     return json.loads(json.dumps(x))
 
 
+def strip(rs, scope=False):
+    """Results without the identity pattern (and optionally without the recorded scope)."""
+    out = []
+    for r in rs:
+        r = dict(r)
+        r.pop("inst", None)
+        if scope and "op" in r:
+            r["op"] = {k: v for k, v in r["op"].items() if k != "scope"}
+        out.append(r)
+    return out
+
+
 def same_result(impl, model) -> bool:
     if isinstance(model, dict) and model.get("raises") == "EOther":
         return isinstance(impl, dict) and "raises" in impl  # a class the model does not pin down
@@ -580,6 +640,9 @@ def order_region(doc, accs, seq, fresh):
     """Which listed region explains a difference between cached and fresh lookups (None = outside every region)."""
     if duplicate_ids(doc):
         return "duplicate_operation_id"
+    if strip(seq, scope=True) == strip(fresh, scope=True) and any(a[0] == "ref" for a in accs):
+        return "scope_recorded_by_reference"
+    seq, fresh = strip(seq, scope=True), strip(fresh, scope=True)
     for a, s, f in zip(accs, seq, fresh):
         if s == f:
             continue
@@ -702,15 +765,20 @@ def yaml_variant(rng, doc):
 # ----------------------------------------------------------------------------------------
 def witness_fails(w) -> bool:
     kind = w["kind"]
-    doc = w["doc"]
+    doc = w.get("doc")
     if kind == "override":
         return bool(override_failures(doc))
     if kind == "iteration":
         it = impl_run(doc, [["iter"]])[0]
         return it["crash"] is not None and bool(ok_or_err_failures(doc, it))
+    if kind == "two_file":
+        for oid, expect, got, distinct in two_file_eval(w["root"], w["shared"], w["owners"], w["operations"], w["order"]):
+            if oid == w["operation"]:
+                return distinct or any(v != expect for v in got.values())
+        return False
     if kind == "order":
         accs = w["accesses"]
-        return norm(impl_run(doc, accs)) != norm(impl_run(doc, accs, fresh_each=True))
+        return strip(norm(impl_run(doc, accs))) != norm(impl_run(doc, accs, fresh_each=True))
     raise ValueError(kind)
 
 
@@ -792,14 +860,18 @@ def run(chk: core.Check):
     #      iteration_completes = true  =>  every documented operation is Ok or Err
     k = len(corpus) + (140 if quick else 1000)
     sub = [(d, a) for (d, a) in cases[:k]]
-    flags = core.coq_eval(IMPORTS, [f"(coherent {version_of(d)} {cjson(d)} {clist([c_access(x) for x in a], 'access')}, iteration_completes {version_of(d)} {cjson(d)})" for d, a in sub], shard=25)
-    n_coh = n_compl = 0
-    for (doc, accs), (coh, compl), impl in zip(sub, flags, impl_results):
+    flags = core.coq_eval(IMPORTS, [f"(coherent {version_of(d)} {cjson(d)} {clist([c_access(x) for x in a], 'access')}, coherent_strict {version_of(d)} {cjson(d)} {clist([c_access(x) for x in a], 'access')}, iteration_completes {version_of(d)} {cjson(d)})" for d, a in sub], shard=25)
+    n_coh = n_strict = n_compl = 0
+    for (doc, accs), (coh, strict, compl), impl in zip(sub, flags, impl_results):
         if coh:
             n_coh += 1
             fresh = norm(impl_run(doc, accs, fresh_each=True))
-            if fresh != impl:
+            if strip(fresh, scope=True) != strip(impl, scope=True):
                 chk.disagree("coherent = true but the implementation's cached lookups differ from fresh ones", {"doc": doc, "accesses": accs}, impl, fresh)
+            if strict:
+                n_strict += 1
+                if strip(fresh) != strip(impl):
+                    chk.disagree("coherent_strict = true but cached lookups differ from fresh ones (scope included)", {"doc": doc, "accesses": accs}, impl, fresh)
         it = next((r for r in impl if "iter" in r), None) or norm(impl_run(doc, [["iter"]]))[0]
         if compl != (it["crash"] is None):
             chk.disagree("iteration_completes vs the implementation", {"doc": doc, "accesses": [["iter"]]}, it["crash"], compl)
@@ -807,7 +879,7 @@ def run(chk: core.Check):
             n_compl += 1
             if ok_or_err_failures(doc, it):
                 chk.disagree("iteration_completes = true but a documented operation is neither Ok nor Err", {"doc": doc, "accesses": [["iter"]]}, ok_or_err_failures(doc, it), None)
-    chk.stages["region_predicates"] = {"cases": len(sub), "coherent": n_coh, "iteration_completes": n_compl}
+    chk.stages["region_predicates"] = {"cases": len(sub), "coherent": n_coh, "coherent_strict": n_strict, "iteration_completes": n_compl}
 
     # ---- stage 3: oracle search on the implementation (testing; supports the tie, never replaces a theorem)
     mult = 10 if chk.broken else 1
@@ -817,7 +889,7 @@ def run(chk: core.Check):
         # (a) cached lookups vs the same lookups on fresh schema objects
         fresh = norm(impl_run(doc, accs, fresh_each=True))
         n_order += 1
-        if fresh != impl and all(canonical_reference(a) for a in accs):
+        if fresh != strip(impl) and all(canonical_reference(a) for a in accs):
             order_diff += 1
             chk.fail("a lookup returns something else than on a fresh schema object (depends on earlier accesses)",
                      {"doc": doc, "accesses": accs}, {"sequence": impl, "fresh": fresh}, region=order_region(doc, accs, impl, fresh))
@@ -836,7 +908,7 @@ def run(chk: core.Check):
     for _ in range(extra):
         doc = gen_doc(rng)
         accs = gen_accesses(rng, doc, n=rng.choice([6, 8, 12]))
-        a = norm(impl_run(doc, accs))
+        a = strip(norm(impl_run(doc, accs)))
         b = norm(impl_run(doc, accs, fresh_each=True))
         n_order += 1
         chk.seen({"doc": doc, "accesses": accs, "stage": "search"}, count_ops(doc) > 0)
@@ -874,6 +946,10 @@ def run(chk: core.Check):
             chk.fail("the YAML form of the document loads differently from the JSON form", {"doc": doc, "yaml": text}, {"loaded": repr(raw)[:3000]})
     chk.stages["search_json_vs_yaml"] = {"documents": n_yaml, "differences": yaml_bad}
 
+    # (e) two-file layouts loaded with from_path: every operation, obtained by id / by path / by reference in varying
+    #     order, must carry the scope of ITS file and mean what ITS file says (response, referenced parameter)
+    chk.stages["search_two_file_layouts"] = two_file_check(chk, rng, (50 if quick else 1200) * mult)
+
     # ---- listed findings
     for f in chk.findings:
         chk.known(f, witness_fails(f["witness"]))
@@ -888,6 +964,10 @@ def replay(payload) -> int:
             b = norm(impl_run(inp["doc"], inp["accesses"], fresh_each=True))
             print("  sequence:", [(r.get("raises") or ("op" in r and r["op"]["method"] + " " + r["op"]["path"]) or "iter") for r in a])
             print("  fresh   :", [(r.get("raises") or ("op" in r and r["op"]["method"] + " " + r["op"]["path"]) or "iter") for r in b])
+        elif inp.get("kind") == "two_file":
+            for oid, expect, got, distinct in two_file_eval(inp["root"], inp["shared"], inp["owners"], inp["operations"], inp["order"]):
+                if oid == inp["operation"]:
+                    print("  expected:", expect, "\n  got     :", got, "\n  different objects:", distinct)
         elif "doc" in inp:
             print("  override:", override_failures(inp["doc"])[:2])
             it = norm(impl_run(inp["doc"], [["iter"]]))[0]
@@ -903,3 +983,142 @@ def replay(payload) -> int:
                     print("  access", a, "\n   implementation:", json.dumps(x)[:600], "\n   model         :", json.dumps(y)[:600])
                     break
     return 0
+
+
+# ----------------------------------------------------------------------------------------
+# two-file layouts (oracle only: the model has local references only)
+# ----------------------------------------------------------------------------------------
+def two_file_docs(rng):
+    """root.yaml + shared/a.yaml.  Both files define #/components/responses/R and #/components/parameters/P with
+    different content, so an operation whose local references are resolved against the wrong file is visible."""
+    R = lambda who: {"description": who, "content": {"application/json": {"schema": {"type": "string", "title": who}}}}  # noqa: E731
+    P = lambda who, ty: {"name": "p", "in": "query", "required": True, "schema": {"type": ty, "title": who}}  # noqa: E731
+
+    def op(oid, with_param):
+        o = {"operationId": oid, "responses": {"200": {"$ref": "#/components/responses/R"}}}
+        if with_param:
+            o["parameters"] = [{"$ref": "#/components/parameters/P"}]
+        return o
+
+    shared = {"items": {}, "components": {"responses": {"R": R("shared")}, "parameters": {"P": P("shared", "string")}}}
+    if rng.random() < 0.2:
+        del shared["components"]["responses"]
+    root = {"openapi": "3.0.2", "info": {"title": "t", "version": "1"}, "paths": {},
+            "components": {"responses": {"R": R("root")}, "parameters": {"P": P("root", "integer")}}}
+    owners = {}
+    n = rng.choice([2, 3, 4])
+    kinds = [rng.random() < 0.45 for _ in range(n)]
+    if rng.random() < 0.5:
+        kinds[0] = True  # a path item behind $ref first, inline ones after it
+    for i, behind_ref in enumerate(kinds):
+        path = f"/p{i}"
+        item = {}
+        if rng.random() < 0.4:
+            item["parameters"] = [{"name": "s", "in": "query", "schema": {"type": "boolean"}}]
+        for m in rng.sample(["get", "post", "put"], rng.choice([1, 2])):
+            oid = f"{m}P{i}"
+            item[m] = op(oid, rng.random() < 0.6)
+            owners[oid] = {"path": path, "method": m, "file": "shared" if behind_ref else "root", "has_param": "parameters" in item[m]}
+        if behind_ref:
+            shared["items"][f"I{i}"] = item
+            root["paths"][path] = {"$ref": f"shared/a.yaml#/items/I{i}"}
+        else:
+            root["paths"][path] = item
+    return root, shared, owners
+
+
+def two_file_observe(schema, op):
+    """What the operation means: document of its scope, its 200 response resolved in its scope, its query parameter p."""
+    from urllib.parse import urldefrag
+
+    out = {"scope_file": urldefrag(op.definition.scope)[0].rsplit("/", 1)[-1]}
+    try:
+        _, resp = schema.resolver.resolve_in_scope(op.definition.raw["responses"]["200"], op.definition.scope)
+        out["response"] = resp.get("description")
+    except Exception as e:  # noqa: BLE001
+        out["response"] = "raises " + exc_class(e)
+    out["p"] = next((p.definition.get("schema", {}).get("title") for p in op.query if p.definition.get("name") == "p"), None)
+    out["shared_s"] = any(p.definition.get("name") == "s" for p in op.query)
+    return out
+
+
+def two_file_eval(root, shared, owners, oids, order):
+    """Load root.yaml (+ shared/a.yaml) with from_path and look every operation up in the given order of lookup kinds.
+    -> list of (operation id, expected, got per kind, lookups returned different objects)."""
+    import shutil
+    import tempfile
+    from pathlib import Path
+
+    import schemathesis
+
+    core.SCRATCH.mkdir(exist_ok=True)
+    td = tempfile.mkdtemp(dir=core.SCRATCH, prefix="c08_two_")
+    out = []
+    try:
+        (Path(td) / "shared").mkdir()
+        (Path(td) / "root.yaml").write_text(to_yaml(root) + "\n")
+        (Path(td) / "shared" / "a.yaml").write_text(to_yaml(shared) + "\n")
+        with warnings.catch_warnings():
+            warnings.simplefilter("ignore")
+            schema = schemathesis.openapi.from_path(str(Path(td) / "root.yaml"))
+            for oid in oids:
+                w = owners[oid]
+                if w["file"] == "shared" and "responses" not in shared["components"]:
+                    expect = {"raises": "ERef"}  # its own file has no such response: reported
+                else:
+                    expect = {"scope_file": "root.yaml" if w["file"] == "root" else "a.yaml", "response": w["file"],
+                              "p": w["file"] if w["has_param"] else None}
+                got = {}
+                objs = {}
+                for kind in order:
+                    if kind == "ref" and w["file"] != "root":
+                        continue  # an operation under a path item behind $ref has no #/paths/... reference
+                    try:
+                        if kind == "id":
+                            o = schema.get_operation_by_id(oid)
+                        elif kind == "get":
+                            o = schema[w["path"]][w["method"]]
+                        else:
+                            o = schema.get_operation_by_reference(f"#/paths/{esc_pointer(w['path'])}/{w['method']}")
+                        objs[kind] = o
+                        obs = two_file_observe(schema, o)
+                        obs.pop("shared_s")
+                        got[kind] = obs
+                    except Exception as e:  # noqa: BLE001
+                        got[kind] = {"raises": exc_class(e)}
+                out.append((oid, expect, got, len({id(o) for o in objs.values()}) > 1))
+    finally:
+        shutil.rmtree(td, ignore_errors=True)
+    return out
+
+
+def two_file_region(owner, order, expect, got, distinct):
+    """by_id_resolves_in_root_scope: the operation lives in the other file and everything that is off is the by-id result
+    or a later lookup that returned the object the by-id lookup had cached."""
+    if owner["file"] != "shared" or distinct or "id" not in got or got["id"] == expect:
+        return None
+    for k, v in got.items():
+        if v == expect or k == "id":
+            continue
+        if order.index("id") < order.index(k) and v == got["id"]:
+            continue
+        return None
+    return "by_id_resolves_in_root_scope"
+
+
+def two_file_check(chk, rng, n):
+    bad = 0
+    for _ in range(n):
+        root, shared, owners = two_file_docs(rng)
+        order = rng.choice([["id", "get", "ref"], ["get", "id", "ref"], ["ref", "id", "get"], ["id", "ref", "get"]])
+        oids = list(owners)
+        rng.shuffle(oids)
+        chk.seen({"two_file": root, "shared": shared, "order": order, "ids": oids}, True)
+        for oid, expect, got, distinct in two_file_eval(root, shared, owners, oids, order):
+            if distinct or any(v != expect for v in got.values()):
+                bad += 1
+                chk.fail("two-file layout: an operation does not mean what ITS file says, or the lookups return different objects",
+                         {"kind": "two_file", "root": root, "shared": shared, "owners": owners, "operations": oids, "operation": oid, "order": order},
+                         {"expected": expect, "got": got, "different_objects": distinct},
+                         region=two_file_region(owners[oid], order, expect, got, distinct))
+    return {"layouts": n, "operations_off": bad}
